@@ -308,6 +308,19 @@ static Plan make_C13(u64 seed, int variant) {
 static Plan make_C04(u64 seed, int variant) {
     G g(seed); g.plan.prop = "C04";
     choose_langs(g);
+    if (variant % 6 == 5) {
+        // the same inputs must reach the KDF when several threads derive keys from their own seeds at once
+        g.plan.mode = "preempt";
+        g.plan.ntasks = g.ntasks = 2 + (int)g.rng.below(2);
+        prologue(g, 1 + (int)g.rng.below(3), 0, (int)g.rng.below(3), (unsigned)g.rng.below(8), 7);
+        for (int t = 0; t < g.ntasks; ++t) {
+            if (g.rng.chance(1, 2)) g.create(t, 0, g.rng.below(8), g.secret_kind(), {g.clock_reading()});
+            else g.load_seed(t, 0, g.fabricate((unsigned)g.rng.below(8) | (g.rng.chance(1, 4) ? 16 : 0)));
+        }
+        int n = 2 + (int)g.rng.below(5);
+        for (int i = 0; i < n; ++i) for (int t = 0; t < g.ntasks; ++t) g.keygen(t, 0, g.pick_coin(), 32);
+        return g.plan;
+    }
     g.ntasks = 1 + (int)g.rng.below(2); g.plan.ntasks = g.ntasks;
     g.alloc_fail_pct = (variant % 4 == 3) ? 10 : 0;
     prologue(g, 1 + (int)g.rng.below(3), (int)g.rng.below(2), (int)g.rng.below(3), (unsigned)g.rng.below(8), 7);
